@@ -609,6 +609,29 @@ func genHierarchy(r *RNG) *kCase {
 			emit("vault." + hm)
 		}
 	}
+	// ----- operator methods: defined like any method, called in operator syntax
+	if r.Chance(1, 3) {
+		ops := []string{"<", ">", "<=", ">=", "<=>", "<<", ">>", "%", "==", "+", "-", "*", "/", "&", "|", "[]"}
+		Shuffle(r, ops)
+		ops = ops[:2+r.Intn(4)]
+		emit("class Opbox")
+		rets := map[string]string{}
+		for _, op := range ops {
+			rets[op] = Pick(r, scal)
+			emit("  def " + op + "(other)")
+			emit("    " + nLit(rets[op]))
+			emit("  end")
+		}
+		emit("end")
+		emit("opb = Opbox.new")
+		for _, op := range ops {
+			if op == "[]" {
+				probe("opb[1]", rets[op], "Opbox defines [] itself", "operator-method:[]")
+				continue
+			}
+			probe("opb "+op+" 1", rets[op], "Opbox defines "+op+" itself", "operator-method:"+op)
+		}
+	}
 	// ----- a protected method that comes from an included module
 	if r.Chance(1, 3) {
 		cq := Pick(r, scal)
@@ -710,7 +733,7 @@ func init() {
 			return judgeHierarchy(c, s.BlackBox(), &kc)
 		},
 		Run: func(c *CheckCtx) {
-			c.rule = "generated hierarchies of 1-4 classes (superclass chains of depth 0-3, optionally inside a namespace module and referenced by qualified name) and 0-2 modules that are included or extended; every method returns a literal of a known class; own/inherited/overridden/reopened instance methods, `def self.` and `class << self` class methods, extended modules, initialize with required and optional parameters (one in four written inside a private section or as `private def initialize`; one in three followed by *rest, **opts and/or &blk), private and protected methods (by section keyword followed by `public`, by `private def m`, or by `private :m` after the definition) followed by public methods, reopenings that add and redefine methods; class names drawn from names the shipped configuration declares in other frames (Base, Relation, Table, Error) and fresh names. Probes: dbtp of calls by name on an instance and on the class (expected: the class of the nearest definition in Ruby's lookup order, or an undefined-method diagnostic), explicit-receiver calls of private methods and top-level calls of protected methods (diagnostic), private via implicit receiver and protected via another instance inside the hierarchy (no diagnostic, right type), new with accepted / too few / too many arguments; no diagnostic on any definition row. distinct_nontrivial = distinct programs"
+			c.rule = "generated hierarchies of 1-4 classes (superclass chains of depth 0-3, optionally inside a namespace module and referenced by qualified name) and 0-2 modules that are included or extended; every method returns a literal of a known class; own/inherited/overridden/reopened instance methods, `def self.` and `class << self` class methods, extended modules, initialize with required and optional parameters (one in four written inside a private section or as `private def initialize`; one in three followed by *rest, **opts and/or &blk), private and protected methods (by section keyword followed by `public`, by `private def m`, or by `private :m` after the definition) followed by public methods, reopenings that add and redefine methods; operator methods (<, <=>, <<, %, ==, +, [] ...) defined by a class and called in operator syntax; class names drawn from names the shipped configuration declares in other frames (Base, Relation, Table, Error) and fresh names. Probes: dbtp of calls by name on an instance and on the class (expected: the class of the nearest definition in Ruby's lookup order, or an undefined-method diagnostic), explicit-receiver calls of private methods and top-level calls of protected methods (diagnostic), private via implicit receiver and protected via another instance inside the hierarchy (no diagnostic, right type), new with accepted / too few / too many arguments; no diagnostic on any definition row. distinct_nontrivial = distinct programs"
 			c.assumptions = []string{"module method names are unique per module and differ from class method names, so Ruby's module-vs-superclass order never decides a probe", "private/protected method names are unique per class"}
 			r := c.RNG.Sub(16)
 			n := c.N(300, 8000)
